@@ -2,74 +2,33 @@ NP = "np_packet_h"
 _STUBS = [
     "core::str::from_utf8 -> common::from_utf8_stub (Ok iff all bytes ASCII; the only caller rejects non-ASCII strings anyway; the real word-at-a-time/SIMD validation does not finish symbolic execution)",
     "core::slice::ascii::is_ascii -> common::is_ascii_stub (plain byte test instead of the SIMD path)",
-    "client key context: common::OracleCipher (impl of the public Cipher trait): every decrypt call takes an arbitrary accept/reject decision drawn up front; on accept plaintext = ciphertext minus a 16-byte tag; nonces of a length other than 16 are rejected (see assumptions)",
-    "server key context: the REAL KeySet::get / KeySet::decode_cookie run on a hook-built KeySet (one key, arbitrary id_offset); <AesSivCmac512 as Cipher>::decrypt and <AesSivCmac256 as Cipher>::decrypt are stubbed by the same oracle (cookie decryption = the call with empty associated data: arbitrary decision, arbitrary plaintext of 0..=130 bytes)",
-    "Cargo.toml [package.metadata.kani]: --max-field-sensitivity-array-size 160, --unwindset memcmp.0:520 and drop_glue<[ExtensionField]>.0:6 (per-loop bounds; unwinding assertions stay on)",
+    "<AesSivCmac256/512 as Cipher>::{encrypt,decrypt}, zeroize::{barrier::optimization_barrier, volatile_set}: stubbed in every packet harness (dyn Cipher calls are resolved over all implementations; zeroize uses inline asm); not reached with NoCipher",
+    "Cargo.toml [package.metadata.kani]: --max-field-sensitivity-array-size 160, --unwindset memcmp.0:520, drop_glue<[ExtensionField]>.0:6 and the two loops of RawEncryptedField::decrypt's collect():3 (per-loop bounds; unwinding assertions stay on)",
+    "hooks: packet_authenticated/untrusted getters (field count sanity check only)",
 ]
 PROP = dict(
     functions=[
-        "ntp_proto::packet::NtpPacket::deserialize<{NoCipher, OracleCipher, KeySet}> (v3/v4/v5 header parsers, Mac::deserialize)",
-        "ntp_proto::packet::extension_fields::{ExtensionFieldData::deserialize, RawExtensionField::{deserialize,wire_length}, ExtensionFieldStreamer::next, RawEncryptedField::{from_message_bytes,decrypt}, ExtensionField::decode + decode_* }",
+        "ntp_proto::packet::NtpPacket::deserialize<NoCipher> (v3/v4/v5 header parsers, Mac::deserialize)",
+        "ntp_proto::packet::extension_fields::{ExtensionFieldData::deserialize, RawExtensionField::{deserialize,wire_length}, ExtensionFieldStreamer::next, RawEncryptedField::from_message_bytes, ExtensionField::decode + decode_*}",
         "ntp_proto::packet::v5::{NtpHeaderV5::deserialize, extension_fields::{ReferenceIdRequest::decode, ReferenceIdResponse::decode}}",
-        "ntp_proto::keyset::{<KeySet as CipherProvider>::get, KeySet::decode_cookie} (server key context)",
     ],
-    bounds="unstructured: every byte string of length 0..=52 (all three key contexts). Longer inputs: layout templates of 64..156 bytes = first header byte (leap/version/mode) and, for NTPv5, timescale+flags bytes concrete per image, all other header bytes symbolic; 1-3 extension fields whose type and length words are concrete per image and whose bodies/padding/MAC bytes are symbolic; length families: v4 field 4/8/24/28/32 with MAC trailers 0/4/17/20/24, truncated by 1/2/4 bytes, length words 0,2,3,30,0xFFFC,0xFFFF; v5 field lengths 3..8,15,16,17 incl. cut-off padding, before/after the draft field; draft field with symbolic content; NTS field with (nonce length, ciphertext length) in {(16,28),(16,16),(16,15),(16,29),(13,28),(0,28),(0xFFFF,0xFFFF)} (v4, 52-byte field after a 28-byte cookie field) and {(16,26),(16,25),(16,27)} (v5), symbolic nonce/ciphertext/plaintext; field types per family from {unique id, cookie, placeholder, NTS, draft id, padding, reference id request/response, unknown 0x1234}",
-    outside="byte strings of 53..4096 bytes that are not one of the templates (in particular symbolic length words: after a symbolic length the field parser runs at symbolic offsets and symbolic execution does not finish); more than 3 fields; NTPv5 header control bytes other than the concrete ones of each template in combination with extension fields (the v5 header parser itself is covered with all 48 bytes symbolic by c23_u_*); key contexts for templates without NTS/cookie field are run with NoCipher only; real AES-SIV (idealised)",
+    bounds="layout templates of 48..116 bytes, key context NoCipher: total length, first header byte (leap/version/mode) and, for NTPv5, timescale+flags bytes concrete per image, all other header bytes symbolic; 0-3 extension fields whose type and length words are concrete per image and whose bodies/padding/MAC bytes are symbolic. Registered images: v3/v4 header alone and + 4-byte MAC; v4 one field (unique id 28; cookie 28 + 24-byte MAC; unknown 4 + 24-byte MAC; draft-type 8 + 17-byte MAC; reference-id-type 24 + 4-byte MAC; empty placeholder + MAC); v4 field one byte longer than the packet; v4 cookie + 52-byte NTS field (no keys: decrypt error); v5 draft field + field of 4,5,6,7,8,17 bytes (unique id, cookie, reference-id request/response, padding, unknown; both orders; request and response headers, 6 timescale/flag combinations); v5 without draft field. Expected outcome asserted per image (accepted / refused / decrypt error).",
+    outside="DOES NOT REACH (symbolic execution or solver memory exhausted, measured; harnesses kept unregistered in c23.rs): unstructured inputs (U(52): 3.0M SSA steps, out of memory at 12 GB), symbolic length words, NTPv5 header validation errors combined with the field parser (1.5M steps, OOM), every path on which an NTS field is decrypted successfully (client cipher or server KeySet: 2.5-3.1M steps, OOM) - i.e. the key contexts 'client session keys' and 'server cookie keys' are covered only up to the refusal of the AEAD (not registered either: not re-verified in time); further prepared but not verified in time: impossible length words (0,3,30,0xFFFF), cut-off v5 padding, placeholders with symbolic bodies, draft field with symbolic content, multi-field v4 images. Byte strings of 117..4096 bytes; more than 3 fields.",
     assumptions=[
-        "successful decryption only with a 16-byte nonce: ExtensionFieldData::deserialize has debug_assert_eq!(nonce.len(), 16) after a successful decrypt; with a peer that holds the keys and sends another nonce length this is a dev-profile-only panic (release: no effect), excluded per the guide",
+        "(for the unregistered key-context harnesses) successful decryption only with a 16-byte nonce: ExtensionFieldData::deserialize has debug_assert_eq!(nonce.len(), 16) after a successful decrypt; with a peer that holds the keys and sends another nonce length this is a dev-profile-only panic (release: no effect)",
     ],
     stub_notes=_STUBS,
     harnesses=[
-        H(NP, "c23", "c23_s_v3_n", "v3 header 48 bytes / + 4-byte MAC", timeout=600),
-        H(NP, "c23", "c23_s_v4_n", "v4 header 48 bytes / + 4-byte MAC", timeout=600),
-        H(NP, "c23", "c23_s_short_n", "empty input, 47-byte v3 header", tier="thorough"),
-        H(NP, "c23", "c23_s_short45_n", "47-byte v4 / v5 header", tier="thorough"),
-        H(NP, "c23", "c23_s_mac_short_n", "1 and 3 byte MAC", tier="thorough"),
-        H(NP, "c23", "c23_s_version_n", "versions 0, 2, 7", tier="thorough"),
-        H(NP, "c23", "c23_s_v5_n", "v5 header without fields", tier="thorough"),
-        H(NP, "c23", "c23_s_v5_mode0_n", "v5 mode 0", tier="thorough"),
-        H(NP, "c23", "c23_s_v5_mode7_n", "v5 mode 7, 52 bytes", tier="thorough"),
-        H(NP, "c23", "c23_s_v5_timescale_n", "v5 timescale 4", tier="thorough"),
-        H(NP, "c23", "c23_s_v5_flags0_n", "v5 reserved flag byte set", tier="thorough"),
-        H(NP, "c23", "c23_s_v5_flags1_n", "v5 reserved flag bits set", tier="thorough"),
-        H(NP, "c23", "c23_t_v4_q_n", "v4 well-formed: unique id 28; cookie 28 + 24-byte MAC", timeout=400),
-        H(NP, "c23", "c23_t_v5_q_n", "v5 well-formed: draft + 5-byte cookie; 17-byte unknown + draft", timeout=400),
-        H(NP, "c23", "c23_t_v4_ok_n", "v4 well-formed: one field (unique id, cookie, unknown, draft type, reference-id type, placeholder) +/- MAC 4/17/24", tier="thorough"),
-        H(NP, "c23", "c23_t_v5_ok_n", "v5 well-formed: draft + field of 4,5,6,7,8,17 bytes (all types), both orders", tier="thorough"),
-        H(NP, "c23", "c23_t_v4_multi_n", "v4 two / three fields +/- MAC", tier="thorough"),
-        H(NP, "c23", "c23_t_v4_placeholder_n", "v4 placeholder with symbolic body", tier="thorough"),
-        H(NP, "c23", "c23_t_v4_trunc_n", "v4 field one byte longer than the packet", tier="thorough"),
-        H(NP, "c23", "c23_t_v4_long_n", "v4 field four bytes longer than the packet", tier="thorough"),
-        H(NP, "c23", "c23_t_v4_multi_trunc_n", "v4 truncated second field", tier="thorough"),
-        H(NP, "c23", "c23_t_v4_len0_n", "v4 length word 0", tier="thorough"),
-        H(NP, "c23", "c23_t_v4_len3_n", "v4 length word 3", tier="thorough"),
-        H(NP, "c23", "c23_t_v4_len30_n", "v4 length word 30 (not a multiple of 4)", tier="thorough"),
-        H(NP, "c23", "c23_t_v4_lenmax_n", "v4 length word 0xFFFF", tier="thorough"),
-        H(NP, "c23", "c23_t_v5_placeholder_n", "v5 placeholder of odd length, symbolic body", tier="thorough"),
-        H(NP, "c23", "c23_t_v5_nopad5_n", "v5 5-byte field, padding cut off", tier="thorough"),
-        H(NP, "c23", "c23_t_v5_nopad17_n", "v5 17-byte field, padding cut off", tier="thorough"),
-        H(NP, "c23", "c23_t_v5_len3_n", "v5 length word 3", tier="thorough"),
-        H(NP, "c23", "c23_t_v5_lenmax_n", "v5 length word 0xFFFF", tier="thorough"),
-        H(NP, "c23", "c23_t_v5_refid_short_n", "v5 reference-id request without offset", tier="thorough"),
-        H(NP, "c23", "c23_t_v5_nodraft_n", "v5 without draft identification", tier="thorough"),
-        H(NP, "c23", "c23_t_v5_draft_sym_n", "v5 draft identification with symbolic content: accepted iff expected string", tier="thorough"),
-        H(NP, "c23", "c23_t_v5_draft_second_n", "v5 second draft field with symbolic content", tier="thorough"),
-        H(NP, "c23", "c23_t_v5_draft_first_wrong_n", "v5 wrong draft field first", tier="thorough"),
-        H(NP, "c23", "c23_t_nts_v4_n", "v4 cookie + NTS field, no keys", tier="thorough"),
-        H(NP, "c23", "c23_t_nts_v4_long_n", "v4 NTS ciphertext length beyond the field, no keys", tier="thorough"),
-        H(NP, "c23", "c23_t_nts_v4_short_n", "v4 NTS field without length words", tier="thorough"),
-        H(NP, "c23", "c23_t_nts_v5_n", "v5 draft + NTS field, no keys", tier="thorough"),
-        H(NP, "c23", "c23_t_nts_v4_c", "v4 NTS field decrypts (oracle), plaintext parsed as fields, client cipher", tier="thorough"),
-        H(NP, "c23", "c23_t_nts_v4_mac_c", "v4 NTS field + MAC; empty plaintext, client cipher", tier="thorough"),
-        H(NP, "c23", "c23_t_nts_v4_notag_c", "v4 NTS ciphertext shorter than a tag, client cipher", tier="thorough"),
-        H(NP, "c23", "c23_t_nts_v4_nonce_c", "v4 NTS nonce length 13 / 0, client cipher", tier="thorough"),
-        H(NP, "c23", "c23_t_nts_v4_huge_c", "v4 NTS length words 0xFFFF, client cipher", tier="thorough"),
-        H(NP, "c23", "c23_t_nts_v5_c", "v5 NTS field, client cipher", tier="thorough"),
-        H(NP, "c23", "c23_t_nts_v5_odd_c", "v5 NTS odd ciphertext length, client cipher", tier="thorough"),
-        H(NP, "c23", "c23_t_nts_v5_long_c", "v5 NTS ciphertext beyond the field, client cipher", tier="thorough"),
-        H(NP, "c23", "c23_t_nts_v4_k", "v4 cookie (real decode_cookie) + NTS field, server KeySet", tier="thorough"),
-        H(NP, "c23", "c23_t_nts_v4_nocookie_k", "v4 NTS field without cookie, server KeySet", tier="thorough"),
-        H(NP, "c23", "c23_t_nts_v4_twocookies_k", "v4 two cookies + NTS field, server KeySet", tier="thorough"),
-        H(NP, "c23", "c23_t_nts_v5_k", "v5 draft + cookie + NTS field, server KeySet", tier="thorough"),
+        H(NP, "c23", "c23_s_v3_n", 'v3 header 48 bytes / + 4-byte MAC', timeout=900),  # measured 10 s CBMC under load
+        H(NP, "c23", "c23_s_v4_n", 'v4 header 48 bytes / + 4-byte MAC', timeout=900),  # measured 8 s CBMC under load
+        H(NP, "c23", "c23_t_v4_q_n", 'v4 well-formed: unique id 28; cookie 28 + 24-byte MAC', timeout=900),  # measured 40 s CBMC under load
+        H(NP, "c23", "c23_t_v5_q_n", 'v5 well-formed: draft + 5-byte cookie; 17-byte unknown + draft', timeout=900),  # measured 81 s CBMC under load
+        H(NP, "c23", "c23_t_v4_ok_n", 'v4 well-formed: one field (unique id, cookie, unknown, draft type, reference-id type, placeholder) +/- MAC 4/17/24', tier="thorough", timeout_thorough=3600),  # measured 155 s CBMC under load
+        H(NP, "c23", "c23_t_v5_ok_n", 'v5 well-formed: draft + field of 4,5,6,7,8,17 bytes (all types), both orders', tier="thorough", timeout_thorough=3600),  # measured 223 s CBMC under load
+        H(NP, "c23", "c23_t_v4_trunc_n", 'v4 field one byte longer than the packet', tier="thorough", timeout_thorough=3600),  # measured 117 s CBMC under load
+        H(NP, "c23", "c23_t_v5_nodraft_n", 'v5 without draft identification', tier="thorough", timeout_thorough=3600),  # measured 46 s CBMC under load
+        H(NP, "c23", "c23_t_nts_v4_n", 'v4 cookie + NTS field, no keys', tier="thorough", timeout_thorough=3600),  # measured 60 s CBMC under load
     ],
+    # prepared in the harness crate but NOT registered (did not finish / not re-verified in time / expected to fail):
+    # c23_s_short_n, c23_s_short45_n, c23_s_mac_short_n, c23_s_version_n, c23_s_v5_n, c23_s_v5_mode0_n, c23_s_v5_mode7_n, c23_s_v5_timescale_n, c23_s_v5_flags0_n, c23_s_v5_flags1_n, c23_t_v4_multi_n, c23_t_v4_placeholder_n, c23_t_v4_long_n, c23_t_v4_multi_trunc_n, c23_t_v4_len0_n, c23_t_v4_len3_n, c23_t_v4_len30_n, c23_t_v4_lenmax_n, c23_t_v5_placeholder_n, c23_t_v5_nopad5_n, c23_t_v5_nopad17_n, c23_t_v5_len3_n, c23_t_v5_lenmax_n, c23_t_v5_refid_short_n, c23_t_v5_draft_sym_n, c23_t_v5_draft_second_n, c23_t_v5_draft_first_wrong_n, c23_t_nts_v4_long_n, c23_t_nts_v4_short_n, c23_t_nts_v5_n, c23_t_nts_v4_c, c23_t_nts_v4_mac_c, c23_t_nts_v4_notag_c, c23_t_nts_v4_nonce_c, c23_t_nts_v4_huge_c, c23_t_nts_v5_c, c23_t_nts_v5_odd_c, c23_t_nts_v5_long_c, c23_t_nts_v4_k, c23_t_nts_v4_nocookie_k, c23_t_nts_v4_twocookies_k, c23_t_nts_v5_k
 )
